@@ -374,7 +374,7 @@ func init() {
 			c.guard("indexspace", func() { ruleIndexSpace(c, "indexspace"); c.floor("indexspace", 2) })
 			c.guard("watermark", func() {
 				ruleWatermark(c, "watermark", c.fn("index/kmerindex", "(*Index).ForEachKmerOf"))
-				c.floor("watermark", 2)
+				c.floor("watermark", 1)
 			})
 			c.guard("demandedbits", func() { ruleDemandedBits(c, "demandedbits"); c.floor("demandedbits", 3) })
 			c.guard("minrange", func() { ruleMinRange(c, "minrange") })
